@@ -1,6 +1,6 @@
 import StoneVerif.Model.FeCompile
 /-!
-Registration (pass 1) and imports (pass 2) of the compile model: what the environment holds afterwards.
+Registration (pass 1) and imports (pass 2) of the compileCore model: what the environment holds afterwards.
 
 * `reg_lookup`: every struct / union / alias declaration is found under its own (namespace, name);
 * `reg_mem`: everything found under a (namespace, name) as a type / alias is a declaration of that namespace;
@@ -173,6 +173,10 @@ theorem regDecl_inv {st ns d st' P} (hI : RegInv st.items P) (h : regDecl st ns 
     simp only [regDecl] at h
     cases h
     exact ⟨hI.skip ns _ rfl, rfl⟩
+  | patch q =>
+    simp only [regDecl] at h
+    cases h
+    exact ⟨hI.skip ns _ rfl, rfl⟩
   | route r =>
     simp only [regDecl] at h
     split at h
@@ -268,7 +272,7 @@ theorem addImportsDecls_mem {nss ns} : ∀ {ds : List Decl} {I I'}, addImportsDe
           · cases ht'; exact Or.inl (Or.inl rfl)
           · exact Or.inr ⟨t', rfl, ht'⟩
       · cases h
-    | type _ | «alias» _ _ | route _ | annot _ | annotType _ =>
+    | type _ | «alias» _ _ | route _ | annot _ | annotType _ | patch _ =>
       simp only [addImportsDecls] at h
       rw [addImportsDecls_mem h p]
       simp
